@@ -206,7 +206,7 @@ func init() {
 				js = append(js, JobSpec{Name: name, Harness: "root", Func: "verifHarnessC14", Params: params, Scale: scaleDF(32)})
 			}
 			base := p("pool", 2, "klen", 1, "vlens", 3, "vbig", 25)
-			js = append(js, JobSpec{Name: "nextPowerOfTwo-all-64-bit", Harness: "index", Func: "verifHarnessC14Pow2", Params: p(), Scale: scaleDF(32)})
+			js = append(js, JobSpec{Name: "nextPowerOfTwo-all-64-bit", Harness: "index", Func: "verifHarnessC14Pow2", Params: p(), Scale: scaleDF(32), CrossCheck: true})
 			if tier == "quick" {
 				add("hashmap-vs-btree", merge(base, p("k", 3, "ops", opPut|opDelete, "index", 3, "shards", 1, "b_index", 1, "b_shards", 2, "cmpfiles", 1)))
 				add("btree-vs-skiplist", merge(base, p("k", 3, "ops", opPut|opDelete, "index", 1, "shards", 2, "b_index", 2, "b_shards", 3, "cmpfiles", 1)))
@@ -548,8 +548,8 @@ func init() {
 			add := func(name string, params map[string]int64) {
 				js = append(js, JobSpec{Name: name, Harness: "root", Func: "verifHarnessC18", Params: params, Scale: scaleDF(32)})
 			}
-			js = append(js, JobSpec{Name: "hint-codec-all-32-bit", Harness: "datafile", Func: "verifHarnessC18Codec", Params: p(), Scale: scaleDF(32)})
-			js = append(js, JobSpec{Name: "log-codec-all-64-bit", Harness: "datafile", Func: "verifHarnessC18LogCodec", Params: p(), Scale: scaleDF(32)})
+			js = append(js, JobSpec{Name: "hint-codec-all-32-bit", Harness: "datafile", Func: "verifHarnessC18Codec", Params: p(), Scale: scaleDF(32), CrossCheck: tier == "thorough"})
+			js = append(js, JobSpec{Name: "log-codec-all-64-bit", Harness: "datafile", Func: "verifHarnessC18LogCodec", Params: p(), Scale: scaleDF(32), CrossCheck: true})
 			base := p("pool", 2, "klen", 2, "vlens", 2, "index", 3, "shards", 1, "dfs_lo", 60, "dfs_hi", 120)
 			if tier == "quick" {
 				add("k3", merge(base, p("k", 3, "ops", opPut|opDelete)))
